@@ -255,7 +255,7 @@ func (d *deps) nodeDeps(n ast.Node, scopes depScopes) []*ast.Identifier {
 		return nil
 	case *ast.Const:
 		deps := []*ast.Identifier{}
-		for _, right := range n.Lhs {
+		for _, right := range n.Rhs {
 			deps = append(deps, d.nodeDeps(right, scopes)...)
 		}
 		for _, left := range n.Lhs {
